@@ -271,6 +271,13 @@ def leg_cross(ns, node, res, spec):
             if enc == 'latin-1' and not c10.encodable(t, dlm, 'latin-1'):
                 enc = 'utf-8'
             cases.append((t, policy, dlm, enc, rng.choice(c10.LINE_SEPS)))
+    # list-valued cells (what UNNEST-less list expressions and ARRAY_AGG hand to the writer): both writers join them with the same inner separator, whatever
+    # the delimiter is - a single bar, a delimiter that only contains a bar, blanks around one
+    for dlm in ('|', '||', '|~|', ' | ', ';', ',', '\t'):
+        for policy in ('quoted', 'simple', 'quoted_rfc'):
+            for _ in range(3):
+                t = [[rng.choice(['a', 'k 1', 'x']), [rng.choice(['red', 'b c', '1', '']) for _j in range(rng.randrange(0, 4))], rng.choice(['z', '4'])] for _i in range(rng.randrange(1, 4))]
+                cases.append((t, policy, dlm, 'utf-8', '\n'))
     for off in range(0, len(cases), 500):
         chunk = cases[off:off + 500]
         wouts = node.call({'op': 'write_batch', 'cases': [{'table': t, 'delim': d, 'policy': p, 'line_separator': ls, 'encoding': 'binary' if e == 'latin-1' else e} for t, p, d, e, ls in chunk]})['results']
